@@ -180,7 +180,7 @@ Proof. unfold ser_payload, ser_unit. rewrite PR. cbn [ser_pre flat_map app]. rew
 Theorem filter_ok :
   filter_pmt_packets (ser_items pid true items) want =
   Ok (let missing := missing_of (map epid (sstreams s)) pid want in
-      if len missing =? len want then (None, Some missing)
+      if none_present (map epid (sstreams s)) pid want then (None, Some missing)
       else (Some (spec_repack (hdrs_of pid true items)
                     (ser_unit {| pf := pf c; pre := []; sec := filtered_sec s want; stuffing := 0 |})),
             match missing with [] => None | _ => Some missing end)).
@@ -200,10 +200,12 @@ Proof.
   destruct FP as (first & tl & EI & FPID).
   unfold filter_pmt_packets. rewrite EI. unfold W at 1. rewrite <- EI.
   rewrite CP, EQ. cbn [bind]. unfold new_pmt. rewrite (parse_tables_ok c WC). cbn [bind]. rewrite FPID. cbn [bind].
-  change (filter _ W) with (missing_of (map epid (sstreams s)) pid W).
-  set (MISS := missing_of (map epid (sstreams s)) pid W). cbv zeta.
-  destruct (len MISS =? len W) eqn:EL.
-  { apply N.eqb_eq in EL. destruct MISS; [unfold W in EL; rewrite len_nil, len_cons in EL; lia|reflexivity]. }
+  cbv zeta. unfold none_present.
+  change (filter _ (filter _ W)) with (missing_of (map epid (sstreams s)) pid W).
+  change (filter _ W) with (considered pid W).
+  set (MISS := missing_of (map epid (sstreams s)) pid W).
+  destruct ((0 <? len MISS) && (len MISS =? len (considered pid W))) eqn:EL.
+  { apply andb_true_iff in EL. destruct EL as [EL _]. destruct MISS; [discriminate EL|reflexivity]. }
   (* the section is rebuilt *)
   rewrite payload_shape.
   assert (LH: len HEAD = pf c + 1) by (unfold HEAD; rewrite len_cons, len_repeatN; lia).
@@ -293,22 +295,32 @@ Proof. induction l as [|a t IH]; [split; [intros _ x []|reflexivity]|]. cbn [fil
   - split; [discriminate|]. intros H. specialize (H a (or_introl eq_refl)). congruence.
   - rewrite IH. split; [intros H x [<-|Hx]; [exact E|apply H; exact Hx]|intros H x Hx; apply H; right; exact Hx]. Qed.
 
-Lemma missing_pred have pmt_pid x :
-  (negb (existsb (N.eqb x) have) && negb (x =? 0) && negb (x =? pmt_pid)) = false <-> requested_ok have pmt_pid x.
-Proof. unfold requested_ok. rewrite !andb_false_iff, !negb_false_iff, !N.eqb_eq, existsb_exists. split.
-  - intros [[(y & Hy & E)|H1]|H2]; [left; apply N.eqb_eq in E; subst; exact Hy|right; left; exact H1|right; right; exact H2].
-  - intros [H0|[H1|H2]]; [left; left; exists x; split; [exact H0|apply N.eqb_refl]|left; right; exact H1|right; exact H2]. Qed.
-(* no error exactly when every requested PID is in the PMT or is the PAT / PMT PID *)
+Lemma in_considered pmt_pid want x : In x (considered pmt_pid want) <-> In x want /\ x <> 0 /\ x <> pmt_pid.
+Proof. unfold considered. rewrite filter_In, andb_true_iff, !negb_true_iff, !N.eqb_neq. tauto. Qed.
+Lemma not_have_iff have x : negb (existsb (N.eqb x) have) = true <-> ~ In x have.
+Proof. rewrite negb_true_iff. split.
+  - intros E H. assert (existsb (N.eqb x) have = true) by (apply existsb_exists; exists x; split; [exact H|apply N.eqb_refl]). congruence.
+  - intros H. destruct (existsb (N.eqb x) have) eqn:E; [|reflexivity]. exfalso. apply H.
+    apply existsb_exists in E. destruct E as (y & Hy & E). apply N.eqb_eq in E. subst. exact Hy. Qed.
+(* no error exactly when every considered PID (requested, not the PAT / PMT PID) is in the PMT *)
 Lemma missing_nil_iff have pmt_pid want :
-  missing_of have pmt_pid want = [] <-> (forall x, In x want -> requested_ok have pmt_pid x).
-Proof. unfold missing_of. rewrite filter_nil_iff. split; intros H x Hx; apply missing_pred; apply H; exact Hx. Qed.
-(* "none": every requested PID (with multiplicity) is missing *)
+  missing_of have pmt_pid want = [] <-> (forall x, In x (considered pmt_pid want) -> In x have).
+Proof. unfold missing_of. rewrite filter_nil_iff. split; intros H x Hx.
+  - specialize (H x Hx). destruct (existsb (N.eqb x) have) eqn:E; [|discriminate].
+    apply existsb_exists in E. destruct E as (y & Hy & E). apply N.eqb_eq in E. subst. exact Hy.
+  - apply negb_false_iff. apply existsb_exists. exists x. split; [exact (H x Hx)|apply N.eqb_refl]. Qed.
+(* every considered PID (with multiplicity) is missing *)
 Lemma missing_all_iff have pmt_pid want :
-  len (missing_of have pmt_pid want) = len want <-> (forall x, In x want -> ~ requested_ok have pmt_pid x).
-Proof. unfold missing_of, len. rewrite Nat2N.inj_iff, filter_length_all. split; intros H x Hx.
-  - intros R. apply missing_pred in R. rewrite (H x Hx) in R. discriminate.
-  - destruct (negb (existsb (N.eqb x) have) && negb (x =? 0) && negb (x =? pmt_pid)) eqn:E; [reflexivity|].
-    exfalso. apply (H x Hx). apply missing_pred. exact E. Qed.
+  len (missing_of have pmt_pid want) = len (considered pmt_pid want) <-> (forall x, In x (considered pmt_pid want) -> ~ In x have).
+Proof. unfold missing_of, len. rewrite Nat2N.inj_iff, filter_length_all. split; intros H x Hx; apply not_have_iff; apply H; exact Hx. Qed.
+Lemma none_present_iff have pmt_pid want :
+  none_present have pmt_pid want = true <->
+  considered pmt_pid want <> [] /\ (forall x, In x (considered pmt_pid want) -> ~ In x have).
+Proof. unfold none_present. rewrite andb_true_iff, N.ltb_lt, N.eqb_eq, missing_all_iff. split.
+  - intros [L A]. split; [|exact A]. intros E. unfold missing_of in L. rewrite E in L. cbn in L. lia.
+  - intros [NE A]. split; [|exact A]. apply missing_all_iff in A. rewrite A.
+    destruct (considered pmt_pid want); [congruence|]. rewrite len_cons. lia. Qed.
+
 (* capacity: the original packets have room for the (shorter) filtered payload *)
 Lemma hdrs_capacity pid : forall l first, all_mine l -> Forall (wf_item pid) l ->
   fold_right (fun h acc => (188 - len h) + acc) 0 (hdrs_of pid first l) = len (concat (chunks l)) /\
@@ -415,7 +427,7 @@ Theorem filtered_sec_all s want : (forall e, In e (sstreams s) -> In (epid e) wa
   crc (filtered_sec s want) = crc_model (ser_sec_nocrc s).
 Proof. intros H. unfold filtered_sec. rewrite (keep_streams_all want (sstreams s) H). split; reflexivity. Qed.
 
-(* ---------- the three-way contract in the property's words (corollaries of filter_ok) ---------- *)
+(* ---------- the contract in the property's words (corollaries of filter_ok) ---------- *)
 Section Contract.
 Variables (c : carrier) (pid : N) (items : list item) (want : list N).
 Hypothesis WC : wf_carrier c.
@@ -428,36 +440,48 @@ Let have := map epid (sstreams (sec c)).
 Let out := spec_repack (hdrs_of pid true items)
              (ser_unit {| pf := pf c; pre := []; sec := filtered_sec (sec c) want; stuffing := 0 |}).
 
-(* every requested PID is in the PMT (or is the PAT / PMT PID): packets, no error *)
-Theorem filter_all_present : (forall x, In x want -> requested_ok have pid x) ->
+(* every considered PID is in the PMT: packets, no error (this includes the corner where NO PID is considered) *)
+Theorem filter_all_present : (forall x, In x (considered pid want) -> In x have) ->
   filter_pmt_packets (ser_items pid true items) want = Ok (Some out, None).
 Proof. intros H. rewrite (filter_ok c pid items want WC PR AM WI EQ WN). cbv zeta. fold have.
-  apply missing_nil_iff in H. rewrite H. rewrite len_nil.
-  destruct want as [|w0 wt]; [congruence|]. rewrite len_cons.
-  replace (0 =? 1 + len wt) with false by lia. reflexivity. Qed.
+  apply missing_nil_iff in H. unfold none_present. rewrite H. reflexivity. Qed.
 
-(* none of the requested PIDs is (as the code counts it: every request, with multiplicity, is missing): no packets, error naming all *)
-Theorem filter_none_present : (forall x, In x want -> ~ requested_ok have pid x) ->
-  filter_pmt_packets (ser_items pid true items) want = Ok (None, Some want).
-Proof. intros H. rewrite (filter_ok c pid items want WC PR AM WI EQ WN). cbv zeta. fold have.
-  assert (M: missing_of have pid want = want).
-  { unfold missing_of. apply filter_all_true. intros x Hx.
-    destruct (negb (existsb (N.eqb x) have) && negb (x =? 0) && negb (x =? pid)) eqn:E; [reflexivity|].
-    exfalso. apply (H x Hx). apply missing_pred. exact E. }
-  rewrite M, N.eqb_refl. reflexivity. Qed.
+(* the corner stated explicitly: only the PAT PID and / or the PMT PID requested: packets and no error; the emitted PMT
+   keeps exactly the streams whose PID was requested, i.e. none unless a stream uses PID 0 or the PMT's own PID *)
+Theorem filter_only_ignored : considered pid want = [] ->
+  filter_pmt_packets (ser_items pid true items) want = Ok (Some out, None) /\
+  ((forall e, In e (sstreams (sec c)) -> epid e <> 0 /\ epid e <> pid) -> sstreams (filtered_sec (sec c) want) = []).
+Proof. intros E. split.
+  - apply filter_all_present. rewrite E. intros x [].
+  - intros NS. cbn [filtered_sec sstreams with_streams_crc]. unfold keep_streams. apply filter_nil_iff. intros e He.
+    destruct (existsb (N.eqb (epid e)) want) eqn:X; [|reflexivity]. exfalso.
+    apply existsb_exists in X. destruct X as (y & Hy & Ey). apply N.eqb_eq in Ey. subst y.
+    destruct (NS e He) as [N0 NP].
+    assert (In (epid e) (considered pid want)) by (apply in_considered; repeat split; assumption).
+    rewrite E in H. exact H. Qed.
 
-(* some but not all: packets AND an error naming exactly the missing ones, in request order *)
+(* at least one PID is considered and none of the considered ones is in the PMT: no packets, error naming all of them *)
+Theorem filter_none_present : considered pid want <> [] -> (forall x, In x (considered pid want) -> ~ In x have) ->
+  filter_pmt_packets (ser_items pid true items) want = Ok (None, Some (considered pid want)).
+Proof. intros NE H. rewrite (filter_ok c pid items want WC PR AM WI EQ WN). cbv zeta. fold have.
+  assert (NP: none_present have pid want = true) by (apply none_present_iff; split; assumption).
+  rewrite NP.
+  assert (M: missing_of have pid want = considered pid want).
+  { unfold missing_of. apply filter_all_true. intros x Hx. apply not_have_iff. exact (H x Hx). }
+  rewrite M. reflexivity. Qed.
+
+(* some but not all considered PIDs are in the PMT: packets AND an error naming exactly the missing ones, in request order *)
 Theorem filter_some_present :
-  (exists x, In x want /\ requested_ok have pid x) -> (exists x, In x want /\ ~ requested_ok have pid x) ->
+  (exists x, In x (considered pid want) /\ In x have) -> (exists x, In x (considered pid want) /\ ~ In x have) ->
   exists missing, missing <> [] /\ missing = missing_of have pid want /\
     filter_pmt_packets (ser_items pid true items) want = Ok (Some out, Some missing).
 Proof. intros (x1 & I1 & R1) (x2 & I2 & R2). exists (missing_of have pid want).
   assert (NN: missing_of have pid want <> []).
   { intros E. rewrite missing_nil_iff in E. exact (R2 (E x2 I2)). }
-  assert (NA: len (missing_of have pid want) <> len want).
-  { intros E. rewrite missing_all_iff in E. exact (E x1 I1 R1). }
+  assert (NP: none_present have pid want = false).
+  { destruct (none_present have pid want) eqn:E; [|reflexivity]. apply none_present_iff in E. destruct E as [_ A].
+    exfalso. exact (A x1 I1 R1). }
   split; [exact NN|]. split; [reflexivity|].
-  rewrite (filter_ok c pid items want WC PR AM WI EQ WN). cbv zeta. fold have.
-  replace (len (missing_of have pid want) =? len want) with false by (symmetry; apply N.eqb_neq; exact NA).
+  rewrite (filter_ok c pid items want WC PR AM WI EQ WN). cbv zeta. fold have. rewrite NP.
   destruct (missing_of have pid want); [congruence|reflexivity]. Qed.
 End Contract.
